@@ -1,93 +1,113 @@
 ------------------------------ MODULE RedactHist ------------------------------
 (* Histories of RedactUserinfo / RedactUserinfoInURLError calls (property C16): *)
-(* the result of a call depends on its argument only, and the results of        *)
-(* different calls never share mutable state.                                   *)
+(* the result of a call -- the returned URL and the text written into the       *)
+(* *url.Error -- depends on the VALUE its argument has at the time of the call  *)
+(* only, and the results of different calls never share mutable state.          *)
 (*                                                                              *)
-(* The caller owns what RedactUserinfo returns (a clone, per its documentation):*)
-(* between calls the environment may change any field of any previously         *)
-(* returned result -- append to the path, drop the query, put real credentials  *)
-(* back into User to perform the request.  Objects live in `heap'; an object is *)
-(* a URL value [user, path, query] with                                         *)
-(*   user  "none" | "orig" (the argument's credentials) | "mask" | "creds"      *)
+(* Objects live in `heap'; an object is a URL value [user, path, query] with    *)
+(*   user  "none" | "orig" (real credentials) | "mask" | "creds" (other real    *)
+(*         credentials put in by the owner)                                     *)
 (*   path  "orig" | "mut"          query "orig" | "dropped"                     *)
-(* Inputs are the objects 1..NIn (several of them may have EQUAL values, which  *)
-(* is what a value-keyed cache cannot tell apart); they are never written.      *)
+(* Objects 1..NIn are the caller's inputs (several may have EQUAL values); the   *)
+(* others were returned by earlier calls.  Between calls the environment may    *)
+(*   - change any field of any object it owns: its inputs (a caller may edit    *)
+(*     its own URL and redact it again) and everything that was returned to it  *)
+(*     (append to the path, drop the query, put credentials back into User);    *)
+(*   - pass ANY object as the argument of the next call, in particular the      *)
+(*     result of an earlier call (closure under composition): a redacted URL    *)
+(*     has a userinfo, the mask, so the error text is replaced for it too.      *)
+(* A call never writes to an existing object.                                   *)
 (*                                                                              *)
-(* Impl selects the design:                                                     *)
-(*   "clone"  golibs: a new object per call on a URL with userinfo              *)
-(*   "memo"   a one-entry cache "last argument value -> the object returned     *)
-(*            for it": right for every fresh call and for every call in         *)
-(*            isolation, but a hit hands out the SAME object again, whatever    *)
-(*            its owner made of it meanwhile                                    *)
-(* TLC proves DependsOnArgOnly, FreshAcrossCalls and CallsWriteNothing for      *)
-(* "clone" and must refute the first two for "memo" (redact, mutate the         *)
-(* result, redact an equal URL again).                                          *)
+(* Impl selects the design; TLC proves the invariants for "clone" and must      *)
+(* refute one for each of the others:                                           *)
+(*   "clone"     golibs: a new object per call on a URL with userinfo           *)
+(*   "memo"      one-entry cache argument VALUE -> returned object: a hit hands *)
+(*               out the same object again, whatever its owner made of it       *)
+(*   "shortcut"  a URL whose User is the shared mask pointer counts as "nothing *)
+(*               to redact": returned as is, and the error text is left alone   *)
+(*   "ptrcache"  the error text is cached per argument POINTER (and *Userinfo   *)
+(*               pointer): stale after the caller edited path or query          *)
 EXTENDS Integers, Sequences, FiniteSets, TLC
 
-CONSTANTS Impl,       \* "clone" | "memo"
-          Inputs,     \* sequence of input URL values (objects 1..Len(Inputs))
-          MaxSteps
+CONSTANTS Impl, Inputs, MaxSteps
 
 VARIABLES heap,       \* heap[id]: current value of object id
-          results,    \* ids returned so far, in call order (with repetitions if an object is handed out twice)
-          last,       \* the last call: [arg, res, val] (val = value of the result when it was returned)
-          memo,       \* "memo" only: [set, key, res]
+          results,    \* ids returned by masking calls so far, in call order
+          last,       \* the last call: [arg, argval, res, val, err] (values at return time)
+          memo,       \* "memo":     [set, key, res]
+          pcache,     \* "ptrcache": [set, id, user, text]
           steps
-vars == <<heap, results, last, memo, steps>>
+vars == <<heap, results, last, memo, pcache, steps>>
 
 V(u, p, q) == [user |-> u, path |-> p, query |-> q]
 ModelInputs == <<V("orig", "orig", "orig"), V("orig", "orig", "orig"), V("none", "orig", "orig")>>
 NIn == Len(Inputs)
+Blank == V("none", "orig", "orig")
 
 Redact(x) == IF x.user = "none" THEN x ELSE [x EXCEPT !.user = "mask"]
-NoCall == [arg |-> 0, res |-> 0, val |-> V("none", "orig", "orig")]
+(* the error's URL text after the call: untouched, or the print of a URL value *)
+Untouched == [set |-> FALSE, val |-> Blank]
+Text(x) == [set |-> TRUE, val |-> x]
+ErrText(x) == IF x.user = "none" THEN Untouched ELSE Text(Redact(x))
+
+NoCall == [arg |-> 0, argval |-> Blank, res |-> 0, val |-> Blank, err |-> Untouched]
 
 Init == /\ heap = Inputs
         /\ results = <<>>
         /\ last = NoCall
-        /\ memo = [set |-> FALSE, key |-> V("none", "orig", "orig"), res |-> 0]
+        /\ memo = [set |-> FALSE, key |-> Blank, res |-> 0]
+        /\ pcache = [set |-> FALSE, id |-> 0, user |-> "none", text |-> Untouched]
         /\ steps = 0
 
-(* RedactUserinfo(input i); RedactUserinfoInURLError prints the same object *)
+(* RedactUserinfo(object i) and RedactUserinfoInURLError(object i, err) *)
 Call(i) ==
-    LET x == heap[i] IN
+    LET x == heap[i]
+        errtext == IF Impl = "ptrcache" /\ pcache.set /\ pcache.id = i /\ pcache.user = x.user
+                   THEN pcache.text                                   \* same pointers: the cached text
+                   ELSE IF Impl = "shortcut" /\ x.user = "mask" THEN Untouched
+                   ELSE ErrText(x)
+    IN
     /\ steps' = steps + 1
-    /\ IF x.user = "none"
-       THEN /\ last' = [arg |-> i, res |-> i, val |-> x]                 \* returned as is
+    /\ pcache' = IF Impl = "ptrcache" /\ x.user # "none" THEN [set |-> TRUE, id |-> i, user |-> x.user, text |-> errtext]
+                 ELSE pcache
+    /\ IF x.user = "none" \/ (Impl = "shortcut" /\ x.user = "mask")
+       THEN /\ last' = [arg |-> i, argval |-> x, res |-> i, val |-> x, err |-> errtext]      \* returned as is
             /\ UNCHANGED <<heap, results, memo>>
        ELSE IF Impl = "memo" /\ memo.set /\ memo.key = x
-       THEN /\ last' = [arg |-> i, res |-> memo.res, val |-> heap[memo.res]]     \* the cached OBJECT
+       THEN /\ last' = [arg |-> i, argval |-> x, res |-> memo.res, val |-> heap[memo.res], err |-> Text(heap[memo.res])]
             /\ results' = Append(results, memo.res)
             /\ UNCHANGED <<heap, memo>>
        ELSE LET id == Len(heap) + 1 IN
             /\ heap' = Append(heap, Redact(x))
             /\ results' = Append(results, id)
-            /\ last' = [arg |-> i, res |-> id, val |-> Redact(x)]
+            /\ last' = [arg |-> i, argval |-> x, res |-> id, val |-> Redact(x), err |-> errtext]
             /\ memo' = IF Impl = "memo" THEN [set |-> TRUE, key |-> x, res |-> id] ELSE memo
 
-(* the owner of a returned object changes one of its fields *)
+(* the owner of object r (an input or a returned URL) changes one of its fields *)
+Mut(x, f) == CASE f = "path"  -> [x EXCEPT !.path = "mut"]
+               [] f = "query" -> [x EXCEPT !.query = "dropped"]
+               [] f = "user"  -> [x EXCEPT !.user = "creds"]
 Mutate(r, f) ==
-    /\ r \in {results[k] : k \in DOMAIN results}
+    /\ r \in DOMAIN heap
     /\ steps' = steps + 1
-    /\ heap' = [heap EXCEPT ![r] = CASE f = "path"  -> [@ EXCEPT !.path = "mut"]
-                                     [] f = "query" -> [@ EXCEPT !.query = "dropped"]
-                                     [] f = "user"  -> [@ EXCEPT !.user = "creds"]]
+    /\ heap' = [heap EXCEPT ![r] = Mut(@, f)]
     /\ last' = NoCall
-    /\ UNCHANGED <<results, memo>>
+    /\ UNCHANGED <<results, memo, pcache>>
 
 Next == /\ steps < MaxSteps
-        /\ \/ \E i \in 1..NIn : Call(i)
-           \/ \E r \in (NIn + 1)..Len(heap), f \in {"path", "query", "user"} : Mutate(r, f)
+        /\ \/ \E i \in DOMAIN heap : Call(i)
+           \/ \E r \in DOMAIN heap, f \in {"path", "query", "user"} : Mutate(r, f)
 Spec == Init /\ [][Next]_vars
 
 ----------------------------------------------------------------------------
 (* C16 over histories. *)
-(* the result of every call is the redaction of its argument, whatever happened before *)
-DependsOnArgOnly == last.arg # 0 => last.val = Redact(heap[last.arg])
-(* a masked result is an object nobody has seen before: not an input, not an earlier result *)
+(* the returned URL is the redaction of the argument's value at call time, whatever happened before *)
+DependsOnArgOnly == last.arg # 0 => last.val = Redact(last.argval)
+(* so is the error text: replaced by the redacted form of THIS argument whenever it has a userinfo *)
+ErrTextOfThisArg == last.arg # 0 => last.err = ErrText(last.argval)
+(* no object is handed out twice; a result is either new or (nothing to redact) the argument itself *)
 FreshAcrossCalls == \A j, k \in DOMAIN results : j # k => results[j] # results[k]
-ResultsAreNotInputs == \A k \in DOMAIN results : results[k] > NIn
+ResultsAreNew == \A k \in DOMAIN results : results[k] > NIn
 (* a call writes to no existing object (inputs and earlier results alike) *)
 CallsWriteNothing == [][(last'.arg # 0) => \A id \in DOMAIN heap : heap'[id] = heap[id]]_vars
-InputsNeverWritten == \A i \in 1..NIn : heap[i] = Inputs[i]
 =============================================================================
